@@ -2,3 +2,4 @@ import Spec.Tables
 import Spec.Slice
 import Spec.Semantics
 import Spec.Printer
+import Spec.Threads
